@@ -70,6 +70,8 @@ pub enum Via {
     Slice,
     Bytes,
     Str,
+    /// an owned String
+    String,
 }
 
 #[derive(Clone, Debug, PartialEq, Eq, Hash)]
@@ -90,7 +92,8 @@ pub enum Step {
     DeleteBucket { path: Path, name: Blob },
     NextInt { path: Path },
     Scan { path: Path, extra_next: u32 },
-    Seek { path: Path, key: Blob, take: u32 },
+    /// `warm`: how many entries the same cursor object yields before it is seeked
+    Seek { path: Path, key: Blob, take: u32, warm: u32 },
     Range { path: Path, lo: Blob, lo_kind: BoundKind, hi: Blob, hi_kind: BoundKind, filter: u8 },
     Buckets { path: Path },
     KvPairs { path: Path },
@@ -124,6 +127,7 @@ fn via_s(v: Via) -> &'static str {
         Via::Slice => "slice",
         Via::Bytes => "bytes",
         Via::Str => "str",
+        Via::String => "string",
     }
 }
 fn via_from(s: &str) -> Via {
@@ -131,6 +135,7 @@ fn via_from(s: &str) -> Via {
         "slice" => Via::Slice,
         "bytes" => Via::Bytes,
         "str" => Via::Str,
+        "string" => Via::String,
         _ => Via::Vec,
     }
 }
@@ -217,8 +222,8 @@ impl Step {
                 json!({"op": op, "path": path_json(path)})
             }
             Step::Scan { path, extra_next } => json!({"op": op, "path": path_json(path), "extra_next": extra_next}),
-            Step::Seek { path, key, take } => {
-                json!({"op": op, "path": path_json(path), "key": key.to_json(), "take": take})
+            Step::Seek { path, key, take, warm } => {
+                json!({"op": op, "path": path_json(path), "key": key.to_json(), "take": take, "warm": warm})
             }
             Step::Range { path, lo, lo_kind, hi, hi_kind, filter } => json!({
                 "op": op, "path": path_json(path), "lo": lo.to_json(), "lo_kind": bk(*lo_kind),
@@ -253,7 +258,7 @@ impl Step {
             "buckets" => Step::Buckets { path: path()? },
             "kv_pairs" => Step::KvPairs { path: path()? },
             "scan" => Step::Scan { path: path()?, extra_next: v.get("extra_next")?.as_u64()? as u32 },
-            "seek" => Step::Seek { path: path()?, key: blob("key")?, take: v.get("take")?.as_u64()? as u32 },
+            "seek" => Step::Seek { path: path()?, key: blob("key")?, take: v.get("take")?.as_u64()? as u32, warm: v.get("warm").and_then(|x| x.as_u64()).unwrap_or(0) as u32 },
             "range" => Step::Range {
                 path: path()?,
                 lo: blob("lo")?,
